@@ -434,6 +434,7 @@ func readerRace(root string, seed int64, tier string) *CaseResult {
 		go func(rdr int) {
 			defer wg.Done()
 			last := 0
+			everExisted := false
 			for {
 				select {
 				case <-stop:
@@ -447,7 +448,11 @@ func readerRace(root string, seed int64, tier string) *CaseResult {
 					distinct[s.Gen] = true
 				}
 				var sig, detail string
+				if !s.Exists && everExisted {
+					sig, detail = "C09:data-file-absent-after-successful-save", "a reader found no data.json although saves had completed before"
+				}
 				if s.Exists {
+					everExisted = true
 					switch {
 					case s.Size == 0:
 						sig, detail = "C09:data-file-empty", "a reader found data.json empty while a save was in progress"
